@@ -62,21 +62,23 @@ Proof.
     - apply Z.div_pos; [lia|apply Z.pow_pos_nonneg; lia].
     - apply Z.div_lt_upper_bound; [apply Z.pow_pos_nonneg; lia|].
       assert (1 <= 2 ^ from) by (apply (Z.pow_le_mono_r 2 0 from); lia). nia. }
-  destruct (n =? 32) eqn:E3; cbn [negb].
-  - apply Z.eqb_eq in E3. subst n. rewrite Hsf. cbv zeta.
-    rewrite Hshr by lia. rewrite (hi_val 32) by lia. reflexivity.
-  - apply Z.eqb_neq in E3.
-    assert (Hsn : shift_ok 32 n = true).
-    { unfold shift_ok. apply andb_true_iff. split; [apply Z.leb_le|apply Z.ltb_lt]; lia. }
-    rewrite Hsn, Hsf. cbv zeta.
-    assert (Hm : notu 32 (Z.shiftr (2 ^ 32 - 1) n) = hi n).
-    { unfold notu. rewrite hi_val by lia. rewrite Z.shiftr_div_pow2 by lia.
+  assert (Hmask : (if negb (n =? 32)
+                   then guard (shift_ok 32 n) (Some (notu 32 (Z.shiftr (2 ^ 32 - 1) n)))
+                   else Some (2 ^ 32 - 1)) = Some (hi n)).
+  { destruct (n =? 32) eqn:E3; cbn [negb].
+    - apply Z.eqb_eq in E3. subst n. rewrite (hi_val 32) by lia. reflexivity.
+    - apply Z.eqb_neq in E3.
+      assert (Hsn : shift_ok 32 n = true).
+      { unfold shift_ok. apply andb_true_iff. split; [apply Z.leb_le|apply Z.ltb_lt]; lia. }
+      rewrite Hsn. cbv [guard]. f_equal.
+      unfold notu. rewrite hi_val by lia. rewrite Z.shiftr_div_pow2 by lia.
       assert (Hp : 2 ^ 32 = 2 ^ n * 2 ^ (32 - n)) by (rewrite <- Z.pow_add_r by lia; f_equal; lia).
       assert (Hpn : 0 < 2 ^ n) by (apply Z.pow_pos_nonneg; lia).
       assert (Hq : (2 ^ 32 - 1) / 2 ^ n = 2 ^ (32 - n) - 1).
       { symmetry. apply (Z.div_unique_pos _ _ _ (2 ^ n - 1)); [lia|]. nia. }
       rewrite Hq. lia. }
-    rewrite Hm. rewrite Hshr by (apply hi_range; lia). reflexivity.
+  cbv zeta. cbv [guard] in Hmask. rewrite Hmask. cbn [obind]. rewrite Hsf. cbv zeta.
+  rewrite Hshr by (apply hi_range; lia). reflexivity.
 Qed.
 
 Theorem get_bits_gen_zero v from : lrtr_get_bits_gen v from 0 = Some 0.
